@@ -8,20 +8,19 @@ import GqlVerif.Proofs.C01Layers
 * `variables_fields_are_declared` — the `Variables` struct has one field per declared variable, in
   order, whose wire name is the variable's GraphQL name (any case function, any keyword table);
 * `variable_type_rule` — each field's Rust type is `rustOf` of the declared type expression (C13), so a
-  non-null position has no `Option` and can never serialize as `null` (`non_null_never_null`);
+  non-null position has no `Option` (that it is never written as `null` is part of `C04S.ser_valid`);
 * `skip_none_step` / `no_skip_step` — one step of struct serialization: with
   `skip_serializing_if` a member that is `None` is omitted, and **only** such a member; without it
   every member is written (explicit `null` for `None`);
-* `skip_attr_iff_nullable` — the generator puts the attribute on exactly the nullable members when the
-  option is on, and on none when it is off;
 * `oneof_single_key` — a `@oneOf` value serializes to an object with exactly one key, the selected
   member's GraphQL name;
 * `unit_variables_null` — an operation without variables sends `null`.
 
 Whole-struct statements, proved in `GqlVerif/Proofs/C01Layers.lean` (namespace `C01`, audited with this file):
 `ser_fields_iff`, `ser_keys_exact` (keys = wire names of the non-skipped members, in order),
-`ser_keys_nodup`, `ser_keys_all`, `oneof_keys`, `ser_conforms` (what is written is admitted by the
-declared type expression: a non-null position is never written as null, at any depth).
+`ser_keys_nodup`, `ser_keys_all`, `oneof_keys`. (`non_null_never_null` below and `C01.ser_conforms` carry a leaf
+hypothesis the model's own serializer cannot meet — a unit struct is written as `null` — and are NOT part of the
+claim: see `Proofs/C04SurjectiveSerValid.lean`, `ser_valid` / `variables_ser_valid`.)
 -/
 namespace GqlVerif
 namespace C04
